@@ -22,6 +22,9 @@ def run_real(ctx, ref, args, kwargs=None):
     from pyvc.interp import module_level_names
     fn = extract.get(ref)
     ALSO[ref] = fn
+    if not hasattr(ctx, 'also_executed'):
+        ctx.also_executed = {}
+    ctx.also_executed[ref] = fn
     it = ctx.interp
     it.module_names = set(it.module_names) | module_level_names(extract.module_ast(fn.module)[1])
     it.index_loops(fn.node)
@@ -50,8 +53,9 @@ class _Methods(dict):
 
 
 class RObj(SObj):
-    def __init__(self, clsname, mro, attrs=None, classes=(), models=None):
+    def __init__(self, clsname, mro, attrs=None, classes=(), models=None, closed=False):
         SObj.__init__(self, clsname, attrs=attrs, classes=classes or tuple(c for _, c in mro))
+        self.closed = closed  # the listed chain is complete up to bases without public attributes (types.Singleton, object): a miss is an AttributeError
         self.mro = list(mro)  # [(module, class name), ...] most derived first
         self.models = dict(models or {})  # (class name, attr) -> callable(ctx, self, *a, **k): stands in for an unverified body
         self.methods = _Methods(self)
@@ -99,6 +103,8 @@ class RObj(SObj):
         if dict.__contains__(self.methods, name):
             return BoundMethod(self, dict.__getitem__(self.methods, name), name)
         r = self._find(name)
+        if r is None and self.closed and not name.startswith('__'):
+            raise PyRaise('AttributeError', note='%r object has no attribute %r' % (self.clsname, name))
         if r is None:
             raise Unsupported('attribute %s.%s: not stored and not defined along %s' % (self.clsname, name, [c for _, c in self.mro]))
         pos, kind, what = r
@@ -122,8 +128,8 @@ class RObj(SObj):
                 return ctx.truth(self.getattr(ctx, nm).call(ctx, (), {}))
         return True
 
-    def construct(ctx, clsname, mro, args, kwargs, models=None, classes=()):
-        o = RObj(clsname, mro, classes=classes, models=models)
+    def construct(ctx, clsname, mro, args, kwargs, models=None, classes=(), closed=False):
+        o = RObj(clsname, mro, classes=classes, models=models, closed=closed)
         o.getattr(ctx, '__init__').call(ctx, tuple(args), dict(kwargs))
         return o
 
